@@ -16,7 +16,42 @@
 //
 // plus a completeness guard (TestRegistry: go/parser scan of the repo for codec methods).
 //
-// MUTANT TABLE — filled in at the end of the file's history; see the final report.
+// Sensitivity (tools/with_mutant.sh <patch> -- ./run C11 quick; wall seconds of the whole
+// sharded run on a machine loaded by other builders, the first counterexample is usually
+// found within the first 1-100 cases of a shard):
+//
+//	M01 FileContract WindowStart/WindowEnd swapped in encoder+decoder ........ killed (layout)        62 s
+//	M02 V2FileContract.TotalCollateral dropped on both sides ................. killed (layout/roundtrip) 42 s
+//	M03 rhp3 PayByEphemeralAccountRequest.Priority dropped on both sides ..... killed (fields/roundtrip) 60 s
+//	M04 every uint64 big-endian on both sides ................................ killed (golden/layout)  52 s
+//	M05 v2 currency Hi before Lo on both sides ............................... killed (golden/layout)  61 s
+//	M06 TransactionSignature.Signature without length prefix, both sides ..... killed (roundtrip/layout) 72 s
+//	M07 Decoder.Read swallows a short final read ............................. killed (truncation)     37 s
+//	M08 v2 txn bitmap: foundation address reuses the arbitrary-data bit ...... killed (roundtrip)      66 s
+//	M09 v1 currency not trimmed (accepted by the decoder) .................... killed (golden/layout)  64 s
+//	M10 State always carries 11 timestamps, both sides ....................... killed (layout)         79 s
+//	M11 gateway RPCSendHeaders response drops Remaining, both sides .......... killed (fields/roundtrip) 88 s
+//	M12 rhp4 RPCReadSectorRequest decoder forgets Offset ..................... killed (roundtrip)      65 s
+//	M13 multiproof numLeaves inference wrong ................................. killed (roundtrip)      76 s
+//	M14 V2TransactionSemantics omits attestations ............................ killed (derived ID)    135 s
+//	M15 v2 SiacoinOutputID uses the siafund distinguisher .................... killed (derived ID)     85 s
+//	M16 resolution tags 0/1 swapped on both sides ............................ killed (layout)         72 s
+//	M17 policy opcodes hash/opaque swapped on both sides ..................... killed (golden/layout)  112 s
+//	M18 DecodeSlice keeps a partial list without error ....................... killed (truncation)     55 s
+//	M19 ChainIndex ID before Height on both sides ............................ killed (layout)         79 s
+//	M20 v1 siafund output without trailing claim start, both sides ........... killed (golden/layout)  81 s
+//	M21 accumulator trees selected by the wrong bit, both sides .............. killed (layout)         80 s
+//	M22 unlock-hash first leaf uses SignaturesRequired ....................... killed (golden/derived) 50 s
+//	M23 multiproof encoder without DeepCopy (encoding mutates the value) ..... killed (determinism)    81 s
+//	M24 v1 currency decoder rejects 16-byte values ........................... killed (roundtrip)      73 s
+//	M26 State timestamp count by height instead of child height .............. killed (layout)         38 s
+//	M27 times in milliseconds on both sides .................................. killed (layout)         52 s
+//	M28 threshold child count takes two bytes on both sides .................. killed (golden/layout)  43 s
+//	M29 rhp3 Account decoder no longer maps the empty key to ZeroAccount ..... killed (roundtrip)      50 s
+//	S01 rhp4 HostPrices Storage/Ingress swapped on both sides ................ survived: symmetric re-ordering of a
+//	    non-consensus-critical object is outside the property (layout is only claimed for the critical set)
+//	S02 FileContractRevision decoder does not store the sentinel payout ...... survived: the payout is a documented
+//	    normalisation (compared as the sentinel on both sides), the property does not claim the sentinel itself
 package c11
 
 import (
